@@ -31,7 +31,7 @@ EXPLANATION = (
     "equal to / below the capacity), returns OK with the decoded size and hands the library the caller's "
     "extents; a frame larger than the destination is an error; (9) a read that spans pages appends values, "
     "definition and repetition levels where the previous page stopped (shared with C02.7). "
-    "(10) what a decoding loop reads through a pointer cursor it steps over before its next iteration (R40: no path from a read through the cursor to the next iteration's read without a store to the cursor - a `continue` may skip an element that was not read, not one that was). (11) the RLE/bit-packing hybrid decoder, executed on streams written from the specification (several groups per bit-packed run, zero-length runs, a padded final group, runs longer than wanted; headers and RLE values concrete, packed payload opaque, group unpacker hooked), returns the values and the count the specification names (shared with C12.2). Decides these clauses, not that decoded values/levels equal the stored ones.")
+    "(10) what a decoding loop reads through a pointer cursor it steps over before its next iteration (R40: no path from a read through the cursor to the next iteration's read without a store to the cursor - a `continue` may skip an element that was not read, not one that was). (11) the RLE/bit-packing hybrid decoder, executed on streams written from the specification (several groups per bit-packed run, zero-length runs, a padded final group, runs longer than wanted; headers and RLE values concrete, packed payload opaque, group unpacker hooked), returns the values and the count the specification names (shared with C12.2). (12) the PLAIN decoders, executed on streams written from the specification for all eight physical types (values whose bytes all differ, booleans with set padding bits, empty and 300-byte byte arrays), directly and through the carquet_decode_plain type switch, return the stream's values and its length in bytes (shared with C12.9). (13) the built-in Snappy and LZ4 decompressors on valid streams built from the format documents with opaque payload, compared byte for byte (provenance) with a decoder written from the documents (shared with C10). Decides these clauses, not that decoded values/levels equal the stored ones for every file.")
 
 PR = "src/reader/page_reader.c"
 PW = "src/writer/page_writer.c"
@@ -53,6 +53,15 @@ def run(ctx):
     nhd = encspec.check_hybrid_decoder(ctx)
     ctx.floor("C06 specification streams through the hybrid decoder", nhd, 100)
     ctx.count("level_decoder_streams", encspec.check_levels_decoder(ctx))
+    ctx.clause("C06.12 PLAIN values of a specification-written page: little-endian fixed-width values, booleans LSB-first (padding bits ignored), BYTE_ARRAY as "
+               "4-byte length plus bytes, FIXED_LEN_BYTE_ARRAY as the bytes alone - every decoder directly and through the carquet_decode_plain type switch")
+    npl = encspec.check_plain(ctx, encoders=False)
+    ctx.floor("C06 PLAIN streams through the decoders", npl, 30)
+    ctx.clause("C06.13 the built-in SNAPPY and LZ4_RAW decompressors return, for valid streams built from the format documents (every element kind, lengths and offsets on either "
+               "side of every field boundary incl. 16-bit offsets with the top bit set, overlapping copies), the bytes the formats define (rule shared with C10)")
+    from ..rules import blockfmt
+    nbf = blockfmt.check(ctx, valid_only=True)
+    ctx.floor("C06 format-built streams through the block decompressors", nbf, 60)
     ctx.clause("C06.10 what a decoding loop reads through a pointer cursor it steps over before its next iteration (no group, run or value is decoded twice)")
     from ..rules import loopcursor
     nlc = loopcursor.check(ctx, [f for f in P.lib_functions() if P.rel(f.file).startswith(("src/encoding/", "src/compression/", "src/thrift/", "src/core/", "src/reader/"))])
